@@ -23,6 +23,9 @@ func c18Hash(l []int) int64 {
 func c18Breaker(kind, salt int64) []func(old, new []int) bool {
 	switch kind {
 	case 0:
+		if salt%2 != 0 { // presentation only (the model ignores the salt here): an explicit nil function is "no tie-breaker" too
+			return []func(old, new []int) bool{nil}
+		}
 		return nil
 	case 1:
 		return []func(old, new []int) bool{func(old, new []int) bool { return true }}
